@@ -172,7 +172,7 @@ def run(R, tier):
                           'delete / duplicate / swap a token, truncate, unbalance brackets, doubled separators and quotes) and with whitespace / '
                           'separator variants that must be treated identically; non-trivial = mutated or variant formula; distinct by formula text' % len(BASE))
     C.proof_obligations(R, 'theories/Props/C05.v', 'Props.C05', TARGETS)
-    if any('build failed' in b for b in R.broken):
+    if any('Coq build failed' in b for b in R.broken):
         return
     per = 3 if tier == 'quick' else 40
     recipes = [{'formula': f} for f in BASE]
